@@ -67,7 +67,7 @@ def replay_state(st):
         pairs = st["pairs"]
         P = np.array([r["p"] for r in pairs], float)
         Q = np.array([r["q"] for r in pairs], float)
-        for centred in (False, True):
+        for centred in (False, True, False, True):   # un-centred again after centred: nothing may be left behind
             yp = barycentric_dim_reduction(P.copy(), center=centred)
             yq = barycentric_dim_reduction(Q.copy(), center=centred)
             d2 = np.sum((yp - yq) ** 2, axis=1)
